@@ -751,7 +751,23 @@ impl SwiftParser {
 
         let block_marker = format!("{{{block_index}:");
 
-        if let Some(start) = raw_message.find(&block_marker) {
+        // Where a block may start depends on the block structure only: the text block can
+        // contain `{3:` or `{5:` inside a field value (77T allows braces), so blocks 1-3 are
+        // looked for before the text block and block 5 after its `-}` terminator.
+        let block4_start = raw_message.find("{4:");
+        let (search_from, search_to) = match (block_index, block4_start) {
+            (1..=3, Some(b4)) => (0, b4),
+            (5, Some(b4)) => match raw_message[b4..].find("-}") {
+                Some(end) => (b4 + end + 2, raw_message.len()),
+                None => (raw_message.len(), raw_message.len()),
+            },
+            _ => (0, raw_message.len()),
+        };
+
+        if let Some(start) = raw_message[search_from..search_to]
+            .find(&block_marker)
+            .map(|p| p + search_from)
+        {
             let content_start = start + block_marker.len();
 
             match block_index {
